@@ -1,3 +1,492 @@
-/- Property theorems for C20 — to be filled in. -/
+/-
+  C20 — Graph validation and condition expressions are sound and total.
+
+  Part 1 (graph): `Stab.Topo` models `validate_stage_graph` (what `Workflow.create` runs) and
+  `topological_sort`.  *Acyclic* is stated independently of Kahn's algorithm: no ref reaches itself
+  through one or more requisite edges (`Topo.Acyclic`).  That is the direct reading of "acyclic";
+  the other candidate — "a topological order exists" — is what `toposort_sound`/`toposort_complete`
+  then *prove* about it (on graphs with known refs: acyclic ⇔ Kahn returns an order of all stages).
+
+  Part 2 (expressions): `Stab.Expr` models `_eval_node` from the AST level.  The model of record
+  (`Guards.fixed`, `Expr.eval`) mirrors the code WITH proposed_fixes/F2.diff; `Guards.current` is the
+  code as found.  `eval_total` holds of the former; `eval_total_current_counterexample` /
+  `each_new_guard_is_necessary` show with concrete witnesses that it fails of the latter (finding F2);
+  `patch_only_changes_exception_class` shows the patch cannot change a value.
+  `source_guards_are_fixed` is the proof obligation that breaks on a tree without the patch.
+
+  Part 3 (purity / shape): evaluation in the model is a pure function by construction
+  (`evalF : Guards → Env → Nat → Expr → Except Err Value` has no state to change).  What ties this to
+  the source are the facts regenerated from `expressions.py` on every run (`Stab.Gen.ExprShape`):
+  the dispatch list equals the model's constructor list, the operator tables equal the model's
+  operators, the file imports nothing but `ast`/`operator`/typing helpers, calls nothing dangerous
+  and stores to nothing but local names.
+
+  Part 4 (callers): both callers catch exactly `ExpressionError`; under `eval_total` their outcome is
+  skip / no-skip, never an exception.
+-/
+import Stab.Lemmas.C20Topo
+import Stab.Lemmas.C20Expr
+import Stab.Gen.ExprShape
+
 namespace Stab.Props.C20
+
+/-! ## Part 1 — graph validation and topological order -/
+section Graph
+open Stab.Topo
+
+/-- the four conditions of a valid stage graph -/
+def Valid (g : List Stage) : Prop :=
+  (g.map (·.ref)).Nodup ∧ NoSelfEdge g ∧ Known g ∧ Acyclic g
+
+/-- **toposort_sound.** Whatever `topological_sort` returns is a permutation of the (top-level)
+    input in which every stage comes after all of its requisites.  No validity assumption. -/
+theorem toposort_sound (stages out : List Stage) (h : toposort stages = .ok out) :
+    Ordered out ∧ out.Perm (topLevel stages) := by
+  unfold toposort toposortLayers at h
+  cases hk : kahn (topLevel stages).length (topLevel stages) [] with
+  | error e => rw [hk] at h; cases h
+  | ok layers =>
+    rw [hk] at h
+    simp only [Except.map, Except.ok.injEq] at h
+    subst h
+    have := kahn_ok _ _ _ _ hk (by simpa using ordered_nil)
+    simpa using this
+
+/-- When `topological_sort` raises `CircularDependencyError` on a graph whose requisites all exist,
+    there really is a cycle (so the fuel of the model's loop is never what stops it). -/
+theorem toposort_stuck_has_cycle (stages stuck : List Stage) (h : toposort stages = .error stuck)
+    (hknown : Known (topLevel stages)) : ∃ c, Reach (topLevel stages) c c := by
+  unfold toposort toposortLayers at h
+  cases hk : kahn (topLevel stages).length (topLevel stages) [] with
+  | ok layers => rw [hk] at h; cases h
+  | error e =>
+    rw [hk] at h
+    simp only [Except.map, Except.error.injEq] at h
+    subst h
+    obtain ⟨hne, em, hp, hst⟩ := kahn_error _ _ _ _ (Nat.le_refl _) hk
+    simp only [List.flatten_nil, List.nil_append] at hp
+    apply exists_cycle (Edge (topLevel stages)) (e.map (·.ref)).length (e.map (·.ref)) (Nat.le_refl _)
+      (by simpa using hne)
+    intro x hx
+    obtain ⟨s, hs, rfl⟩ := List.mem_map.mp hx
+    have hsts : s ∈ topLevel stages := hp.subset (by simp [hs])
+    have hnr := hst s hs
+    have : ¬ ∀ r ∈ s.reqs, r ∈ em.map (·.ref) := by
+      intro hall
+      rw [(ready_iff _ s).mpr hall] at hnr
+      cases hnr
+    simp only [Classical.not_forall] at this
+    obtain ⟨r, hr, hrn⟩ := this
+    have hrk : r ∈ (em ++ e).map (·.ref) := (hp.map _).symm.subset (hknown s hsts r hr)
+    simp only [List.map_append, List.mem_append] at hrk
+    rcases hrk with h1 | h2
+    · exact absurd h1 hrn
+    · exact ⟨r, h2, s, hsts, rfl, hr⟩
+
+/-- **toposort_complete.** On a graph with known requisites and no cycle `topological_sort`
+    succeeds and returns all stages (in a sound order). -/
+theorem toposort_complete (stages : List Stage) (hknown : Known (topLevel stages))
+    (hac : Acyclic (topLevel stages)) :
+    ∃ out, toposort stages = .ok out ∧ out.Perm (topLevel stages) ∧ Ordered out := by
+  cases h : toposort stages with
+  | ok out => exact ⟨out, rfl, (toposort_sound _ _ h).2, (toposort_sound _ _ h).1⟩
+  | error stuck =>
+    obtain ⟨c, hc⟩ := toposort_stuck_has_cycle _ _ h hknown
+    exact absurd hc (hac c)
+
+/-- **validate_ok_iff.** `validate_stage_graph` (hence `Workflow.create`) succeeds exactly when the
+    refs are distinct, no stage names itself, every requisite names an existing stage, and no ref
+    reaches itself through requisites. -/
+theorem validate_ok_iff (stages : List Stage) :
+    validate stages = .ok () ↔ Valid (topLevel stages) := by
+  unfold validate Valid
+  simp only
+  cases hd : firstDup [] ((topLevel stages).map (·.ref)) with
+  | some r =>
+    simp only [reduceCtorEq, false_iff, not_and]
+    intro hnd
+    have := (firstDup_none_iff _ []).mpr ⟨hnd, by simp⟩
+    rw [this] at hd; cases hd
+  | none =>
+    have hnd := ((firstDup_none_iff _ _).mp hd).1
+    cases hs : structural ((topLevel stages).map (·.ref)) (topLevel stages) with
+    | some e =>
+      simp only [reduceCtorEq, false_iff, not_and]
+      intro _ hself hknown
+      have := (structural_none_iff _ _).mpr (fun s hs' => ⟨hself s hs', hknown s hs'⟩)
+      rw [this] at hs; cases hs
+    | none =>
+      have hsk := (structural_none_iff _ _).mp hs
+      have hself : NoSelfEdge (topLevel stages) := fun s h => (hsk s h).1
+      have hknown : Known (topLevel stages) := fun s h => (hsk s h).2
+      cases ht : toposort stages with
+      | ok out =>
+        simp only [true_iff]
+        refine ⟨hnd, hself, hknown, ?_⟩
+        obtain ⟨ho, hp⟩ := toposort_sound _ _ ht
+        have hnd' : (out.map (·.ref)).Nodup := ((hp.map _).nodup_iff).mpr hnd
+        exact acyclic_congr (fun s => hp.mem_iff) (acyclic_of_ordered hnd' ho)
+      | error stuck =>
+        simp only [reduceCtorEq, false_iff, not_and]
+        intro _ _ _ hac
+        obtain ⟨c, hc⟩ := toposort_stuck_has_cycle _ _ ht hknown
+        exact hac c hc
+
+/-- **Which error.** `CircularDependencyError` is raised exactly for a structurally sound graph
+    with a genuine cycle; `InvalidStageGraphError` exactly when the structure itself is broken
+    (duplicate ref, self-edge or unknown ref). -/
+theorem validate_error_class (stages : List Stage) :
+    ((∃ e, validate stages = .error e ∧ e.isCircular = true) ↔
+      ((topLevel stages).map (·.ref)).Nodup ∧ NoSelfEdge (topLevel stages) ∧ Known (topLevel stages)
+        ∧ ¬ Acyclic (topLevel stages))
+    ∧ ((∃ e, validate stages = .error e ∧ e.isCircular = false) ↔
+      ¬ (((topLevel stages).map (·.ref)).Nodup ∧ NoSelfEdge (topLevel stages) ∧ Known (topLevel stages))) := by
+  have hok := validate_ok_iff stages
+  unfold validate Valid at hok
+  unfold validate
+  simp only at hok ⊢
+  cases hd : firstDup [] ((topLevel stages).map (·.ref)) with
+  | some r =>
+    have hnnd : ¬ ((topLevel stages).map (·.ref)).Nodup := by
+      intro hnd
+      have := (firstDup_none_iff _ []).mpr ⟨hnd, by simp⟩
+      rw [this] at hd; cases hd
+    constructor
+    · constructor
+      · rintro ⟨e, he, hc⟩; cases he; cases hc
+      · rintro ⟨hnd, _⟩; exact absurd hnd hnnd
+    · constructor
+      · intro _ h; exact hnnd h.1
+      · intro _; exact ⟨_, rfl, rfl⟩
+  | none =>
+    have hnd := ((firstDup_none_iff _ _).mp hd).1
+    cases hs : structural ((topLevel stages).map (·.ref)) (topLevel stages) with
+    | some e =>
+      have hbad : ¬ (NoSelfEdge (topLevel stages) ∧ Known (topLevel stages)) := by
+        rintro ⟨hself, hknown⟩
+        have := (structural_none_iff _ _).mpr (fun s hs' => ⟨hself s hs', hknown s hs'⟩)
+        rw [this] at hs; cases hs
+      have hnc := structural_some_not_circular _ _ _ hs
+      constructor
+      · constructor
+        · rintro ⟨e', he', hc⟩
+          simp only [Except.error.injEq] at he'
+          subst he'
+          rw [hnc] at hc; cases hc
+        · rintro ⟨_, h1, h2, _⟩; exact absurd ⟨h1, h2⟩ hbad
+      · constructor
+        · intro _ h; exact hbad ⟨h.2.1, h.2.2⟩
+        · intro _; exact ⟨e, rfl, hnc⟩
+    | none =>
+      have hsk := (structural_none_iff _ _).mp hs
+      have hself : NoSelfEdge (topLevel stages) := fun s h => (hsk s h).1
+      have hknown : Known (topLevel stages) := fun s h => (hsk s h).2
+      rw [hd, hs] at hok
+      simp only at hok
+      cases ht : toposort stages with
+      | ok out =>
+        rw [ht] at hok
+        have hac := (hok.mp rfl).2.2.2
+        constructor
+        · constructor
+          · rintro ⟨e, he, _⟩; cases he
+          · rintro ⟨_, _, _, h⟩; exact absurd hac h
+        · constructor
+          · rintro ⟨e, he, _⟩; cases he
+          · intro h; exact absurd ⟨hnd, hself, hknown⟩ h
+      | error stuck =>
+        constructor
+        · constructor
+          · intro _
+            refine ⟨hnd, hself, hknown, ?_⟩
+            intro hac
+            obtain ⟨c, hc⟩ := toposort_stuck_has_cycle _ _ ht hknown
+            exact hac c hc
+          · intro _; exact ⟨_, rfl, rfl⟩
+        · constructor
+          · rintro ⟨e, he, hc⟩
+            simp only [Except.error.injEq] at he
+            subst he
+            cases hc
+          · intro h; exact absurd ⟨hnd, hself, hknown⟩ h
+
+/-- A cycle rules out every sound order of all stages — the independent reading "a topological
+    order exists" agrees with `Acyclic` (for distinct refs). -/
+theorem ordered_perm_implies_acyclic (g out : List Stage) (hnd : (g.map (·.ref)).Nodup)
+    (hp : out.Perm g) (ho : Ordered out) : Acyclic g :=
+  acyclic_congr (fun _ => hp.mem_iff) (acyclic_of_ordered (((hp.map _).nodup_iff).mpr hnd) ho)
+
+-- non-vacuity: a valid diamond, and one graph for each way of being invalid, in detection order
+private def diamond : List Stage := [⟨4, [2, 3], true⟩, ⟨2, [1], true⟩, ⟨1, [], true⟩, ⟨3, [1], true⟩]
+example : validate diamond = .ok () := by decide
+example : Valid (topLevel diamond) := (validate_ok_iff diamond).mp (by decide)
+example : toposort diamond = .ok [⟨1, [], true⟩, ⟨2, [1], true⟩, ⟨3, [1], true⟩, ⟨4, [2, 3], true⟩] := by decide
+example : validate [⟨1, [], true⟩, ⟨1, [], true⟩] = .error (.duplicateRef 1) := by decide
+example : validate [⟨1, [1], true⟩] = .error (.selfEdge 1) := by decide
+example : validate [⟨1, [7], true⟩, ⟨2, [2], true⟩] = .error (.unknownRef 1 [7]) := by decide
+example : validate [⟨1, [2], true⟩, ⟨2, [3], true⟩, ⟨3, [1], true⟩, ⟨4, [], true⟩]
+    = .error (.cycle [⟨1, [2], true⟩, ⟨2, [3], true⟩, ⟨3, [1], true⟩]) := by decide
+-- synthetic stages (`top = false`) are ignored by both functions
+example : validate [⟨1, [], true⟩, ⟨1, [1, 9], false⟩] = .ok () := by decide
+-- a cycle in the sense of `Reach`
+example : Reach [⟨1, [2], true⟩, ⟨2, [1], true⟩] 1 1 :=
+  .cons ⟨⟨1, [2], true⟩, by simp, rfl, by simp⟩ (.single ⟨⟨2, [1], true⟩, by simp, rfl, by simp⟩)
+
+end Graph
+
+/-! ## Part 2 — the expression evaluator is total -/
+section Expression
+open Stab.Expr
+
+/-- **eval_total (every depth budget).** With the guards of the fixed code, `_eval_node` returns a value or raises
+    `ExpressionError` — for every expression tree, every context, every identity oracle and every
+    depth budget.  (`IsTotal r` = `r` is `.ok v` or `.error .expression`.) -/
+theorem eval_total_any_depth_budget (env : Env) (fuel : Nat) (e : Expr) : IsTotal (evalF .fixed env fuel e) :=
+  evalF_total_of_guards Guards.fixed_all env fuel e
+
+/-- **eval_total** for the model of record `Expr.eval : Expr → Env → Except Err Value`
+    (= `_eval_node` of the fixed code entered from `evaluate_expression` on an ordinary stack) -/
+theorem eval_total (e : Expr) (env : Env) : IsTotal (Expr.eval e env) :=
+  eval_total_any_depth_budget env _ e
+
+/-- … and for `evaluate_expression` as a whole, whatever the prologue / `ast.parse` did with the text -/
+theorem evaluate_total (env : Env) (stack : Nat) (p : Parsed) : IsTotal (evaluate .fixed env stack p) := by
+  cases p with
+  | blank => exact .expr
+  | fastTrue => exact .ok _
+  | fastFalse => exact .ok _
+  | syntaxError => exact .expr
+  | parseRaised cls => exact .expr
+  | tree e => exact eval_total_any_depth_budget env _ e
+
+private def emptyEnv : Env := { vars := [] }
+private def dEnv : Env := { vars := [("d", .dict [("k", .int 1)])] }
+
+/-- **F2, counterexample.** Of the code as found (`Guards.current`) totality is FALSE.  Witnesses:
+    `-x` with `x` missing (TypeError), `d[[1]]` (TypeError: unhashable), 1000 nested `not` on a
+    stack with 1000 frames left (RecursionError), and `ast.parse` itself raising (deep nesting,
+    lone surrogates). -/
+theorem eval_total_current_counterexample :
+    evaluate .current emptyEnv 1000 (.tree (.unary .usub (.name "x"))) = .error .typeError
+    ∧ evaluate .current dEnv 1000 (.tree (.subscript (.name "d") (.list [.const (.int 1)]))) = .error .typeError
+    ∧ evaluate .current emptyEnv 1000 (.tree (notChain 1000 (.name "x"))) = .error .recursionError
+    ∧ evaluate .current emptyEnv 1000 (.parseRaised .memoryError) = .error .memoryError
+    ∧ ¬ (∀ env stack p, IsTotal (evaluate .current env stack p)) := by
+  refine ⟨rfl, rfl, ?_, rfl, ?_⟩
+  · have := notChain_recursion .current rfl emptyEnv (.name "x") 1000 1000 (Nat.le_refl _)
+    simpa only [evaluate, Guards.current, Bool.false_eq_true, if_false] using this
+  · intro h
+    exact not_total_of_other (x := .typeError) (by decide)
+      (h emptyEnv 1000 (.tree (.unary .usub (.name "x"))))
+
+/-- Each of the four guards added by F2.diff is needed: dropping any one of them from the fixed
+    evaluator re-admits a foreign exception class. -/
+theorem each_new_guard_is_necessary :
+    ¬ (∀ env stack p, IsTotal (evaluate { Guards.fixed with unary := false } env stack p))
+    ∧ ¬ (∀ env stack p, IsTotal (evaluate { Guards.fixed with subscript := false } env stack p))
+    ∧ ¬ (∀ env stack p, IsTotal (evaluate { Guards.fixed with depth := false } env stack p))
+    ∧ ¬ (∀ env stack p, IsTotal (evaluate { Guards.fixed with parse := false } env stack p)) := by
+  refine ⟨?_, ?_, ?_, ?_⟩
+  · intro h
+    exact not_total_of_other (x := .typeError) (by decide)
+      (h emptyEnv 1000 (.tree (.unary .usub (.const (.str "s")))))
+  · intro h
+    exact not_total_of_other (x := .typeError) (by decide)
+      (h dEnv 1000 (.tree (.subscript (.name "d") (.list []))))
+  · intro h
+    have := h emptyEnv 3 (.tree (notChain 3 (.name "x")))
+    exact not_total_of_other (x := .recursionError) (by decide) this
+  · intro h
+    exact not_total_of_other (x := .recursionError) (by decide)
+      (h emptyEnv 1000 (.parseRaised .recursionError))
+
+/-- The two guards the code already has are needed too (a regression there is the same defect). -/
+theorem existing_guards_are_necessary :
+    ¬ (∀ env stack p, IsTotal (evaluate { Guards.fixed with compare := false } env stack p))
+    ∧ ¬ (∀ env stack p, IsTotal (evaluate { Guards.fixed with index := false } env stack p)) := by
+  refine ⟨?_, ?_⟩
+  · intro h
+    exact not_total_of_other (x := .typeError) (by decide)
+      (h emptyEnv 1000 (.tree (.compare (.const (.int 1)) [(.lt, .const (.str "a"))])))
+  · intro h
+    exact not_total_of_other (x := .indexError) (by decide)
+      (h emptyEnv 1000 (.tree (.subscript (.list []) (.const (.int 0)))))
+
+/-- **The patch only changes the class of the exception**: at equal depth budget the fixed
+    evaluator returns the same value whenever the current one returns one, and `ExpressionError`
+    whenever the current one raises anything at all. -/
+theorem patch_only_changes_exception_class (env : Env) (fuel : Nat) (e : Expr) :
+    evalF .fixed env fuel e = relax (evalF .current env fuel e) :=
+  evalF_fixed_eq_relax_current env fuel e
+
+/-- **The depth bound never changes a value**: what evaluates to `v` within some depth budget
+    evaluates to `v` within every larger one (so `_MAX_DEPTH` only decides *whether* a deep
+    expression is refused, and an expression the current code evaluates within `_MAX_DEPTH + 1`
+    levels gets the same value from the fixed code). -/
+theorem depth_budget_monotone (g : Guards) (env : Env) (e : Expr) (v : Value) (n m : Nat) (h : n ≤ m) :
+    evalF g env n e = .ok v → evalF g env m e = .ok v :=
+  evalF_ok_mono g env e v n m h
+
+theorem fixed_agrees_with_current_on_values (env : Env) (stack : Nat) (e : Expr) (v : Value)
+    (hs : maxDepth + 1 ≤ stack) (h : evalF .current env (maxDepth + 1) e = .ok v) :
+    evaluate .current env stack (.tree e) = .ok v ∧ evaluate .fixed env stack (.tree e) = .ok v := by
+  constructor
+  · exact evalF_ok_mono _ env e v _ _ hs h
+  · have hm : min (maxDepth + 1) stack = maxDepth + 1 := Nat.min_eq_left hs
+    simp only [evaluate, Guards.fixed, if_true, hm]
+    have := patch_only_changes_exception_class env (maxDepth + 1) e
+    simp only [Guards.fixed] at this
+    rw [this, h]; rfl
+
+/-- unsupported node classes are always refused with the evaluator's own error -/
+theorem unsupported_raises_expression_error (g : Guards) (env : Env) (fuel : Nat) (k : String) :
+    evalF g env (fuel + 1) (.unsupported k) = .error .expression := rfl
+
+-- non-vacuity: real conditions evaluate to values (`x.a[0] < 3 and not y`, chained compare, `in`,
+-- `True == 1`, tuple keys, ternary) and the refused ones are refused with ExpressionError
+private def ctx1 : Env :=
+  { vars := [("x", .dict [("a", .list [.int 1, .int 2])]), ("s", .str "abc"), ("n", .int 5)] }
+example : Expr.eval (.boolOp .and [.compare (.subscript (.attr (.name "x") "a") (.const (.int 0))) [(.lt, .const (.int 3))],
+    .unary .not (.name "y")]) ctx1 = .ok (.bool true) := by rfl
+example : Expr.eval (.compare (.const (.int 1)) [(.lt, .name "n"), (.le, .const (.int 5))]) ctx1 = .ok (.bool true) := by rfl
+example : Expr.eval (.compare (.const (.str "bc")) [(.in_, .name "s")]) ctx1 = .ok (.bool true) := by rfl
+example : Expr.eval (.compare (.const (.bool true)) [(.eq, .const (.int 1))]) ctx1 = .ok (.bool true) := by rfl
+example : Expr.eval (.subscript (.attr (.name "x") "a") (.unary .usub (.const (.int 1)))) ctx1 = .ok (.int 2) := by rfl
+example : Expr.eval (.ifExp (.name "missing") (.unary .usub (.const (.str "s"))) (.tuple [.name "n"])) ctx1
+    = .ok (.tuple [.int 5]) := by rfl
+example : Expr.eval (.unary .usub (.name "s")) ctx1 = .error .expression := by rfl
+example : Expr.eval (.compare (.name "n") [(.lt, .name "s")]) ctx1 = .error .expression := by rfl
+example : Expr.eval (.subscript (.name "x") (.list [])) ctx1 = .error .expression := by rfl
+example : Expr.eval (.unsupported "Call") ctx1 = .error .expression := by rfl
+-- the depth boundary, exactly: 200 nested `not` (201 levels) evaluate, 201 are refused
+set_option maxRecDepth 20000 in
+example : evalF .fixed ctx1 (maxDepth + 1) (notChain 200 (.name "n")) = .ok (.bool true) := by rfl
+set_option maxRecDepth 20000 in
+example : evalF .fixed ctx1 (maxDepth + 1) (notChain 201 (.name "n")) = .error .expression := by rfl
+
+end Expression
+
+/-! ## Part 3 — purity and shape of the source -/
+section Shape
+open Stab.Expr
+open Stab.Gen
+
+/-- **eval_pure (shape).** `_eval_node` dispatches on exactly the node classes the model has
+    constructors for, in the same order, and refuses everything else. -/
+theorem dispatch_eq_model :
+    ExprShape.dispatch = supportedKinds ∧ ExprShape.endsInRaise = true := by decide
+
+/-- every model expression is one of the dispatched classes or the catch-all … -/
+theorem kind_supported_or_unsupported (e : Expr) :
+    e.kind ∈ supportedKinds ∨ ∃ k, e = .unsupported k := by
+  cases e <;> simp [Expr.kind, supportedKinds]
+
+/-- … and every dispatched class has a constructor (so the two lists are in bijection) -/
+theorem every_supported_kind_has_a_constructor :
+    ∀ k ∈ supportedKinds, ∃ e : Expr, e.kind = k ∧ ∀ k', e ≠ .unsupported k' := by
+  intro k hk
+  simp only [supportedKinds, List.mem_cons, List.not_mem_nil, or_false] at hk
+  rcases hk with rfl | rfl | rfl | rfl | rfl | rfl | rfl | rfl | rfl | rfl
+  · exact ⟨.const .none, rfl, by intro _ h; cases h⟩
+  · exact ⟨.name "", rfl, by intro _ h; cases h⟩
+  · exact ⟨.attr (.name "") "", rfl, by intro _ h; cases h⟩
+  · exact ⟨.subscript (.name "") (.name ""), rfl, by intro _ h; cases h⟩
+  · exact ⟨.compare (.name "") [], rfl, by intro _ h; cases h⟩
+  · exact ⟨.boolOp .and [], rfl, by intro _ h; cases h⟩
+  · exact ⟨.unary .not (.name ""), rfl, by intro _ h; cases h⟩
+  · exact ⟨.ifExp (.name "") (.name "") (.name ""), rfl, by intro _ h; cases h⟩
+  · exact ⟨.list [], rfl, by intro _ h; cases h⟩
+  · exact ⟨.tuple [], rfl, by intro _ h; cases h⟩
+
+/-- the operator tables of the source are the model's operators -/
+theorem operator_tables_eq_model :
+    ExprShape.cmpOps = CmpOp.all.map CmpOp.astName
+    ∧ ExprShape.boolOps = [BoolOp.and, .or].map BoolOp.astName
+    ∧ ExprShape.unaryOps = [UnOp.not, .usub].map UnOp.astName := by decide
+
+/-- the unary operators outside `_SAFE_UNARY_OPS` are refused (after the operand was evaluated) -/
+theorem unary_supported_iff (g : Guards) (op : UnOp) (v : Value) :
+    ExprShape.unaryOps.contains op.astName = false → unaryValue g op v = .error .expression := by
+  cases op <;> simp [ExprShape.unaryOps, UnOp.astName, unaryValue]
+
+/-- names that would make evaluation able to execute code or touch the outside world -/
+def dangerousNames : List String :=
+  ["eval", "exec", "compile", "__import__", "getattr", "setattr", "delattr", "globals", "locals", "vars",
+   "open", "input", "breakpoint", "os", "sys", "subprocess", "importlib", "builtins", "__builtins__",
+   "pickle", "marshal", "ctypes", "socket", "shutil", "pathlib"]
+
+/-- **eval_pure (source).** `expressions.py` imports only `ast`, `operator` and typing helpers; no
+    dangerous identifier occurs anywhere in the file (which also excludes aliasing such as
+    `e = eval`); the only methods called are `dict.get`, `str.strip`, `str.lower`, `ast.parse`; and
+    neither function stores to an attribute or a subscript, deletes, or declares a global. -/
+theorem source_has_no_dangerous_construct :
+    ExprShape.imports.all (fun m => ["__future__", "ast", "operator", "collections.abc", "typing"].contains m) = true
+    ∧ ExprShape.namesUsed.all (fun n => !dangerousNames.contains n) = true
+    ∧ ExprShape.calls.all (fun n => !dangerousNames.contains n) = true
+    ∧ ExprShape.methods.all (fun m => ["get", "strip", "lower", "parse"].contains m) = true
+    ∧ ExprShape.nonLocalStores = [] := by decide
+
+/-- **The proof obligation tied to F2.**  The `try/except` clauses and the depth check found in the
+    source are exactly the guards of the model of record.  (On a tree without F2.diff the left-hand
+    side evaluates to `Guards.current` and this theorem no longer compiles.) -/
+theorem source_guards_are_fixed :
+    Guards.ofSource ExprShape.guards ExprShape.maxDepth ExprShape.depthCheck ExprShape.recursivePassDepth
+      = Guards.fixed
+    ∧ ExprShape.maxDepth = some maxDepth := by decide
+
+/-- no except clause in the source other than the ones the model knows (a new one would be new behaviour) -/
+theorem source_has_no_unmodelled_except_clause :
+    ExprShape.guards.all (fun c =>
+      [("Subscript", "TypeError", "raise ExpressionError"), ("Subscript", "IndexError", "return None"),
+       ("Compare", "TypeError", "raise ExpressionError"), ("UnaryOp", "TypeError", "raise ExpressionError"),
+       ("parse", "SyntaxError", "raise ExpressionError"), ("parse", "ValueError", "raise ExpressionError"),
+       ("parse", "RecursionError", "raise ExpressionError"), ("parse", "MemoryError", "raise ExpressionError"),
+       ("eval", "RecursionError", "raise ExpressionError")].contains c) = true := by decide
+
+end Shape
+
+/-! ## Part 4 — the two callers -/
+section Callers
+open Stab.Expr
+open Stab.Gen
+
+/-- **Translator fact.** Both callers import `ExpressionError` from `stabilize.expressions`, wrap
+    every call of `evaluate_expression` in a `try`, catch exactly `ExpressionError`, and the handler
+    skips the branch (`_apply_split_logic`) resp. returns `False` = do not skip (`_should_skip`). -/
+theorem callers_catch_exactly_expression_error :
+    ExprShape.callers =
+      [("handlers/complete_stage/split_logic.py", "_apply_split_logic", true, true,
+          [(["ExpressionError"], "call skipped.append")]),
+       ("handlers/start_stage/conditions.py", "_should_skip", true, true,
+          [(["ExpressionError"], "return False")])] := by rfl
+
+/-- **Callers never crash.** Whatever `evaluate_expression` does within `eval_total`'s outcome
+    classes, the OR-split activates or skips the branch and `_should_skip` answers — no exception. -/
+theorem callers_never_crash (r : Except Err Value) (h : IsTotal r) :
+    (∃ o, splitBranch r = .ok o) ∧ (∃ b, shouldSkip r = .ok b) := by
+  rcases h with ⟨v, rfl⟩ | rfl
+  · exact ⟨⟨_, rfl⟩, ⟨_, rfl⟩⟩
+  · exact ⟨⟨_, rfl⟩, ⟨_, rfl⟩⟩
+
+/-- instantiated: for every condition text and context, with the fixed evaluator -/
+theorem malformed_condition_cannot_crash_a_stage (env : Env) (stack : Nat) (p : Parsed) :
+    (∃ o, splitBranch (evaluate .fixed env stack p) = .ok o)
+    ∧ (∃ b, shouldSkip (evaluate .fixed env stack p) = .ok b) :=
+  callers_never_crash _ (evaluate_total env stack p)
+
+/-- a malformed condition skips the branch / does not skip the stage -/
+theorem malformed_condition_outcome :
+    splitBranch (.error .expression) = .ok .skip ∧ shouldSkip (.error .expression) = .ok false := ⟨rfl, rfl⟩
+
+/-- and why totality matters: any other class goes straight through both callers (this is how F2
+    crashes the CompleteStage / StartStage handler) -/
+theorem foreign_exception_propagates (x : Err) (hx : x ≠ .expression) :
+    splitBranch (.error x) = .error x ∧ shouldSkip (.error x) = .error x := by
+  cases x <;> first | exact absurd rfl hx | exact ⟨rfl, rfl⟩
+
+example : splitBranch (evaluate .current emptyEnv 1000 (.tree (.unary .usub (.name "x")))) = .error .typeError := by
+  rfl
+
+end Callers
+
 end Stab.Props.C20
